@@ -519,6 +519,76 @@ pub fn t_impl(a: &[i64]) -> Val {
     build_one(ps, &m)
 }
 
+// t_implname: impl block of T whose function names may already be taken (C05: every declared #[address] function is emitted, or the
+// description is rejected).
+//   type Bz { x: u32 }  impl Bz { #[address(256)] [pub] fn <bname>(&self) -> u32; }         (base_kind != 0)
+//   type T { [vftable { pub fn <vname>(&self); }]  (#[base] pub b: Bz | pub a2: u32),  pub a: u32 }
+//   impl T { #[address(addr0)] pub fn g0(recv0, a0: u32) -> u32;  [#[address(addr1)] pub fn (g1 | g0)(recv1) -> u64;] }
+// a = [ps, addr0, addr1, n_impl, second_same_name, vft_kind (0 none, 1 g0, 2 g1, 3 h), base_kind (0 none, 1 pub g0, 2 pub g1, 3 private g0, 4 pub h),
+//      recv0, recv1]
+pub fn t_implname(a: &[i64]) -> Val {
+    let ps = a[0] as usize;
+    let recv = |k: i64| -> Vec<Ar> {
+        match k {
+            1 => vec![Ar::ConstSelf],
+            2 => vec![Ar::MutSelf],
+            _ => vec![],
+        }
+    };
+    let mut defs: Vec<ID> = vec![];
+    let mut impls: Vec<FB> = vec![];
+    if a[6] != 0 {
+        defs.push(ID::new(
+            (V::Public, "Bz"),
+            TD::new([TS::field((V::Public, "x"), T::ident("u32"))]).with_attributes([A::align(4)]),
+        ));
+        let bname = match a[6] {
+            1 | 3 => "g0",
+            2 => "g1",
+            _ => "h",
+        };
+        let bvis = if a[6] == 3 { V::Private } else { V::Public };
+        impls.push(FB::new(
+            "Bz",
+            [F::new((bvis, bname), [Ar::ConstSelf])
+                .with_attributes([A::integer_fn("address", 256)])
+                .with_return_type(T::ident("u32"))],
+        ));
+    }
+    let mut stmts: Vec<TS> = vec![];
+    if a[5] != 0 {
+        let vname = match a[5] {
+            1 => "g0",
+            2 => "g1",
+            _ => "h",
+        };
+        stmts.push(TS::vftable([F::new((V::Public, vname), [Ar::ConstSelf])]));
+    }
+    if a[6] != 0 {
+        stmts.push(TS::field((V::Public, "b"), T::ident("Bz")).with_attributes([A::base()]));
+    } else {
+        stmts.push(TS::field((V::Public, "a2"), T::ident("u32")));
+    }
+    stmts.push(TS::field((V::Public, "a"), T::ident("u32")));
+    let t_align = if a[5] != 0 { ps } else { 4 };
+    defs.push(ID::new((V::Public, "T"), TD::new(stmts).with_attributes([A::align(t_align)])));
+    let mut a0 = recv(a[7]);
+    a0.push(Ar::named("a0", T::ident("u32")));
+    let mut fns: Vec<F> = vec![F::new((V::Public, "g0"), a0)
+        .with_attributes([A::integer_fn("address", a[1] as isize)])
+        .with_return_type(T::ident("u32"))];
+    if a[3] >= 2 {
+        fns.push(
+            F::new((V::Public, if a[4] != 0 { "g0" } else { "g1" }), recv(a[8]))
+                .with_attributes([A::integer_fn("address", a[2] as isize)])
+                .with_return_type(T::ident("u64")),
+        );
+    }
+    impls.push(FB::new("T", fns));
+    let m = M::new().with_definitions(defs).with_impls(impls);
+    build_one(ps, &m)
+}
+
 // t_vft: `type T { vftable { m functions }, x: <ptr-sized> }` (C04, C16).
 // a = [ps, m, has_vsize, vsize, then per function (stride 10): has_index, index, 8 function parameters]   (m <= 4)
 pub fn t_vft(a: &[i64]) -> Val {
@@ -1314,6 +1384,7 @@ pub const TEMPLATES: &[(&str, Template)] = &[
     ("t_layout", t_layout),
     ("t_enum", t_enum),
     ("t_impl", t_impl),
+    ("t_implname", t_implname),
     ("t_vft", t_vft),
     ("t_graph", t_graph),
     ("t_scope", t_scope),
